@@ -32,9 +32,17 @@ import (
 	"sort"
 	"strings"
 	"sync"
+	"sync/atomic"
 	"time"
 
+	"github.com/negasus/haproxy-spoe-go/message"
+	"github.com/negasus/haproxy-spoe-go/payload/kv"
+	"github.com/negasus/haproxy-spoe-go/request"
+
 	"lunar/engine/config"
+	"lunar/engine/routing"
+	"lunar/engine/runner"
+	"lunar/engine/services"
 	contextmanager "lunar/toolkit-core/context-manager"
 	"lunar/toolkit-core/verifhook"
 
@@ -51,6 +59,13 @@ type Event struct {
 	Fail  int     `json:"fail,omitempty"`  // update: the fake admin API refuses its Fail-th call from now on (503)
 	At    string  `json:"at,omitempty"`    // gaplookup / gapupdate: the yield point at which the call is held
 	Inner []Event `json:"inner,omitempty"` // ... while these events run
+	A     *Event  `json:"a,omitempty"`     // overlap: two updates, both held at the proxy's admin API; a installs first,
+	B     *Event  `json:"b,omitempty"`     // ... the inner events run, then b installs
+	Drift []int   `json:"drift,omitempty"` // reset: seconds by which successive vacuum wake-ups are late (cycled)
+	Hdl   bool    `json:"handler,omitempty"` // reset: transactions go through the real SPOE message handler (hreq / hres)
+	ID    string  `json:"id,omitempty"`
+	Seq   string  `json:"seq,omitempty"`
+	St    int     `json:"status,omitempty"`
 }
 
 type Script struct {
@@ -65,6 +80,23 @@ type passEv struct {
 }
 
 var passCh = make(chan passEv, 64)
+
+// a vacuum that woke up for its next pass is held (hook vacuum.wake) until the driver releases it: the driver may let
+// time pass first, so that the pass reads the clock later than its timer was due (drift of a real clock)
+type wakeEv struct {
+	name string
+	rel  chan struct{}
+}
+
+var wakeCh = make(chan wakeEv, 16)
+
+// handler mode: the policies the SPOE handler dispatched the last request / response with; diagnosis tasks handed over / done
+var (
+	mhMu           sync.Mutex
+	mhLast         *config.PoliciesData
+	mhDir          string
+	diagN, diagDone atomic.Int64
+)
 
 // vacuums that started their background loop since the driver last looked (hook vacuum.start, raised synchronously
 // inside the call that handed the vacuum its first key)
@@ -99,6 +131,19 @@ func sink(point string, kv ...any) {
 	case point == "vacuum.pass":
 		removed, _ := m["removed"].(int)
 		passCh <- passEv{short(fmt.Sprint(m["name"])), removed}
+	case point == "vacuum.wake":
+		w := wakeEv{short(fmt.Sprint(m["name"])), make(chan struct{})}
+		wakeCh <- w
+		<-w.rel
+	case point == "mh.policies":
+		mhMu.Lock()
+		mhLast, _ = m["policies"].(*config.PoliciesData)
+		mhDir = fmt.Sprint(m["dir"])
+		mhMu.Unlock()
+	case point == "diag.notify":
+		diagN.Add(1)
+	case point == "diag.done":
+		diagDone.Add(1)
 	case point == "vacuum.start":
 		startMu.Lock()
 		startedQ = append(startedQ, short(fmt.Sprint(m["name"])))
@@ -138,6 +183,19 @@ type run struct {
 	tr   *vh.Trace
 	ids  map[*config.PoliciesData]int
 	seen map[string]bool // vacuums that have started; each keeps exactly one timer armed between its passes
+	extra  int // timers of the fixture that are armed for good (handler mode: the services' far-away periodic timer)
+	drift  []int
+	driftI int
+	hdl    *handlerFx
+}
+
+func (r *run) nextDrift() int {
+	if len(r.drift) == 0 {
+		return 0
+	}
+	d := r.drift[r.driftI%len(r.drift)]
+	r.driftI++
+	return d
 }
 
 func (r *run) mock() interface {
@@ -184,9 +242,9 @@ func (r *run) awaitPass(name string) passEv {
 // the policy files of this harness schedule no delayed un-manage calls).
 func (r *run) settled() {
 	deadline := time.Now().Add(10 * time.Second)
-	for len(r.mock().PendingTimers()) != len(r.seen) {
+	for len(r.mock().PendingTimers()) != len(r.seen)+r.extra {
 		if time.Now().After(deadline) {
-			vh.Die("%d timers armed, %d vacuums running", len(r.mock().PendingTimers()), len(r.seen))
+			vh.Die("%d timers armed, %d vacuums running (+%d other)", len(r.mock().PendingTimers()), len(r.seen), r.extra)
 		}
 		runtime.Gosched()
 	}
@@ -331,6 +389,116 @@ func (r *run) gapUpdate(e Event) {
 	r.afterOp()
 }
 
+// overlap: two updates run on goroutines of their own and are both held at the proxy's admin API (the call they wait for
+// before installing their version); a is released and finishes, the inner events run, then b.
+func (r *run) overlap(e Event) {
+	r.fake.HoldManageAll(2)
+	type res struct{ err error }
+	startHeld := func(u Event) (chan error, chan struct{}) {
+		done := make(chan error, 1)
+		go func() { done <- r.doUpdate(u) }()
+		select {
+		case rel := <-r.fake.Held():
+			return done, rel
+		case err := <-done:
+			vh.Die("update %s finished (%v) without asking the proxy to manage everything", u.Op, err)
+		case <-time.After(10 * time.Second):
+			vh.Die("update %s neither finished nor reached the admin API", u.Op)
+		}
+		return nil, nil
+	}
+	doneA, relA := startHeld(*e.A)
+	doneB, relB := startHeld(*e.B)
+	close(relA)
+	if err := <-doneA; err != nil {
+		vh.Die("update %s failed: %v", e.A.Op, err)
+	}
+	r.afterOp()
+	r.logUpdate(*e.A, true, "overlap")
+	for _, in := range e.Inner {
+		if in.Ev != "lookup" {
+			vh.Die("only lookups run between two overlapping updates")
+		}
+		r.exec(in)
+	}
+	close(relB)
+	if err := <-doneB; err != nil {
+		vh.Die("update %s failed: %v", e.B.Op, err)
+	}
+	r.afterOp()
+	r.logUpdate(*e.B, true, "overlap")
+}
+
+// ---- handler mode: the real SPOE message handler of a policy-mode HandlingDataManager around the accessor
+
+type nopWriter struct{}
+
+func (nopWriter) Write(b []byte) (int, error) { return len(b), nil }
+func (nopWriter) Close() error                { return nil }
+
+type handlerFx struct {
+	dm      *routing.HandlingDataManager
+	handler routing.MessageHandler
+}
+
+func newHandler(build config.BuildResult) *handlerFx {
+	w := nopWriter{}
+	// the services' periodic work is put out of reach of every history: its timer stays armed and never fires
+	svc, err := services.Initialize(w, 100000*time.Hour, build.Initial.Config.Exporters)
+	if err != nil {
+		vh.Die("services.Initialize: %v", err)
+	}
+	dm := routing.VerifNewPolicyModeManager(build, svc, runner.NewDiagnosisWorker(), w)
+	return &handlerFx{dm: dm, handler: routing.Handler(dm)}
+}
+
+// handlerCall: lunar-on-request / lunar-on-response of transaction e.ID inside sequence e.Seq through routing.Handler;
+// recorded as the lookup of transaction e.ID with the policies the handler dispatched the message with (hook mh.policies).
+func (r *run) handlerCall(e Event) {
+	if r.hdl == nil {
+		vh.Die("%s outside a handler history", e.Ev)
+	}
+	k := kv.NewKV()
+	name, via := "lunar-on-request", "request"
+	k.Add("id", e.ID)
+	k.Add("sequence_id", e.Seq)
+	k.Add("method", "GET")
+	k.Add("url", "api.test/x")
+	if e.Ev == "hreq" {
+		k.Add("scheme", "https")
+		k.Add("path", "/x")
+		k.Add("query", "")
+		k.Add("headers", "Host: api.test\r\n")
+	} else {
+		name, via = "lunar-on-response", "response"
+		k.Add("status", int64(e.St))
+		k.Add("headers", "content-type: text/plain\r\n")
+	}
+	k.Add("body", []byte(""))
+	mhMu.Lock()
+	mhLast, mhDir = nil, ""
+	mhMu.Unlock()
+	req := &request.Request{Messages: &message.Messages{{Name: name, KV: k}}}
+	r.hdl.handler(req)
+	// the diagnosis worker looks the transaction up once more on its own goroutine: wait until it is done
+	for deadline := time.Now().Add(10 * time.Second); diagDone.Load() < diagN.Load(); runtime.Gosched() {
+		if time.Now().After(deadline) {
+			vh.Die("diagnosis worker did not finish")
+		}
+	}
+	r.afterOp()
+	mhMu.Lock()
+	p, dir := mhLast, mhDir
+	mhMu.Unlock()
+	if p == nil || dir != via {
+		vh.Die("the handler did not dispatch the %s of %s in policy mode", via, e.ID)
+	}
+	ev := r.snap(vh.Ev{"ev": "lookup", "txn": e.ID, "seq": e.Seq, "via": via})
+	label, df := c11acc.Describe(p)
+	ev["ver"], ev["label"], ev["df"] = r.ids[p], label, df
+	r.tr.Add(ev)
+}
+
 func (r *run) exec(e Event) {
 	switch e.Ev {
 	case "lookup":
@@ -343,6 +511,10 @@ func (r *run) exec(e Event) {
 		r.gapLookup(e)
 	case "gapupdate":
 		r.gapUpdate(e)
+	case "overlap":
+		r.overlap(e)
+	case "hreq", "hres":
+		r.handlerCall(e)
 	default:
 		vh.Die("unknown event %q", e.Ev)
 	}
@@ -368,6 +540,33 @@ func (r *run) adv(d int) {
 		}
 		// move to the next instant at which vacuums pass, wait for exactly these passes and for their re-armed timers
 		r.mock().AdvanceTime(nx.Sub(r.mock().Now()))
+		held := []wakeEv{}
+		for i := 0; i < due; i++ {
+			select {
+			case w := <-wakeCh:
+				held = append(held, w)
+			case <-time.After(10 * time.Second):
+				vh.Die("vacuum due at %v did not wake up", nx)
+			}
+		}
+		// drift: the woken vacuums read the clock d seconds after their timers were due (never across the target of
+		// this advance or the wake-up of another vacuum)
+		if d := time.Duration(r.nextDrift()) * time.Second; d > 0 {
+			if lim := target.Sub(r.mock().Now()); d > lim {
+				d = lim
+			}
+			for _, t2 := range r.mock().PendingTimers() {
+				if !t2.After(r.mock().Now().Add(d)) {
+					d = 0
+				}
+			}
+			if d > 0 {
+				r.mock().AdvanceTime(d)
+			}
+		}
+		for _, w := range held {
+			close(w.rel)
+		}
 		for i := 0; i < due; i++ {
 			select {
 			case p := <-passCh:
@@ -410,8 +609,21 @@ func main() {
 					startMu.Lock()
 					startedQ = nil
 					startMu.Unlock()
+					c11acc.NoDiagnosis = e.Hdl
 					r = &run{fx: c11acc.New(dir, e.Label, start), fake: fake, tr: tr, ids: map[*config.PoliciesData]int{}, seen: map[string]bool{}}
+					r.drift = e.Drift
+					if e.Hdl {
+						r.hdl = newHandler(config.BuildResult{Accessor: r.fx.Accessor, Initial: r.fx.Accessor.GetCurrentPoliciesData()})
+						time.Sleep(2 * time.Millisecond)
+						r.extra = len(r.mock().PendingTimers())
+					}
 					ev := r.snap(vh.Ev{"ev": "reset", "label": e.Label})
+					if len(e.Drift) > 0 {
+						ev["drift"] = e.Drift
+					}
+					if e.Hdl {
+						ev["handler"] = true
+					}
 					label, df := c11acc.Describe(r.fx.Accessor.GetCurrentPoliciesData())
 					ev["clabel"], ev["cdf"] = label, df
 					tr.Add(ev)
@@ -420,6 +632,9 @@ func main() {
 				}
 			}
 			if r != nil {
+				if r.hdl != nil {
+					r.hdl.dm.StopDiagnosisWorker()
+				}
 				os.RemoveAll(r.fx.Dir)
 			}
 		}
